@@ -3,6 +3,7 @@ package props
 import (
 	"context"
 	"fmt"
+	"google.golang.org/protobuf/proto"
 	"log/slog"
 	"math/rand"
 	"net"
@@ -29,7 +30,7 @@ import (
 // receiver, so that 0 and 2 deliveries are observed, not inferred.
 
 type c03Call struct {
-	Mode      string // unbatched | batchable | batch
+	Mode      string // unbatched | batchable | batch | unbatched-closing (Close() runs while the call is being serialised)
 	N         int    // calls in a batch
 	Cancelled bool   // its context is already cancelled
 }
@@ -40,7 +41,7 @@ type c03Case struct {
 	Flush    time.Duration
 	Calls    []c03Call
 	Fault    *faultconn.Fault
-	Server   string // "" | garbage | fatal-exc | fatal-exc-kill | silence | close-mid-frame | unknown-call-id
+	Server   string // "" | garbage | garbage-header | fatal-exc | fatal-exc-kill | silence | close-mid-frame | unknown-call-id | fatal-action-exc
 	ServerAt int    // which request (1-based)
 	ExtClose int    // >0: call Close() on the region client when the connection has seen this many operations
 	Slow     string // "" | writer | reader | fail (failure handler slowed at its log statements)
@@ -68,6 +69,19 @@ func (c c03Case) String() string {
 		s += " then=" + c.BlockThen
 	}
 	return s
+}
+
+// closingGet is an unbatched Get whose serialisation runs Close() of the region
+// client to completion: the call was accepted by a live connection and is
+// registered only after the failure handler has swept the table of sent calls.
+type closingGet struct {
+	*hrpc.Get
+	hook func()
+}
+
+func (g *closingGet) ToProto() proto.Message {
+	g.hook()
+	return g.Get.ToProto()
 }
 
 type c03Tracked struct {
@@ -113,6 +127,15 @@ func runC03Case(c *fw.Ctx, id string, cs c03Case) {
 	regs := cl.CreateTable("t", [][]byte{[]byte("m")}, nil)
 	cl.EchoResults = true
 	var reqN int32
+	var fatalConn int64
+	var fatalCall uint32
+	var fatalDone int32
+	cl.OnAction = func(req *sim.Request, a *sim.Action) *sim.Exc {
+		if atomic.LoadInt64(&fatalConn) == req.Conn.ID && atomic.LoadUint32(&fatalCall) == req.CallID && atomic.CompareAndSwapInt32(&fatalDone, 0, 1) {
+			return &sim.Exc{Class: sim.ExcStopped}
+		}
+		return nil
+	}
 	blockHit := make(chan struct{})
 	var blockOnce sync.Once
 	defer blockOnce.Do(func() { close(blockHit) })
@@ -131,6 +154,9 @@ func runC03Case(c *fw.Ctx, id string, cs c03Case) {
 		switch srvKind {
 		case "garbage":
 			rep = &sim.Reply{Raw: sim.RawFrame([]byte{0xff, 0xff, 0xff, 0xff, 0xff, 0xff, 0x01, 0x02})}
+		case "garbage-header":
+			// a well-framed response whose 3-byte header is not a protobuf message
+			rep = &sim.Reply{Raw: sim.RawFrame([]byte{3, 0xff, 0xff, 0xff})}
 		case "fatal-exc":
 			rep = &sim.Reply{Exc: &sim.Exc{Class: sim.ExcAborted}}
 		case "fatal-exc-kill":
@@ -141,6 +167,23 @@ func runC03Case(c *fw.Ctx, id string, cs c03Case) {
 			rep = &sim.Reply{Raw: []byte{0, 0, 1, 0, 1, 2, 3}, KillConn: true}
 		case "unknown-call-id":
 			rep = &sim.Reply{Raw: sim.RawFrame([]byte{2, 0x08, 0x7f})}
+		case "fatal-action-exc":
+			// answered normally, except that its first action gets "regionserver
+			// stopped" (inside the multi-response if it is a multi-request)
+			nActs := 0
+			if req.Single != nil {
+				nActs = 1
+			}
+			for _, ra := range req.Multi {
+				nActs += len(ra.Actions)
+			}
+			if nActs == 0 { // a multi-request emptied by cancellations: take the next request
+				atomic.AddInt32(&reqN, -1)
+				return nil
+			}
+			atomic.StoreInt64(&fatalConn, req.Conn.ID)
+			atomic.StoreUint32(&fatalCall, req.CallID)
+			return nil
 		}
 		if rep != nil && cs.BlockThen != "" && !rep.Drop {
 			rep.Hold = blockHit // misbehave once the client's next write is stuck
@@ -198,6 +241,14 @@ func runC03Case(c *fw.Ctx, id string, cs c03Case) {
 		return fc, nil
 	}
 	readTimeout := 300 * time.Millisecond
+	// a bad frame, a fatal exception or a connection closed by the server must
+	// fail the connection when it is read, not when the read timeout expires
+	// later: those cases run with a read timeout beyond the quiescence bound
+	immediate := cs.BlockThen == "" && cs.Fault == nil && cs.ExtClose == 0 && cs.Server != "" && cs.Server != "silence"
+	if immediate {
+		readTimeout = 8 * time.Second
+		c.Count("immediate_detection_cases", 1)
+	}
 	logger := quietLogger
 	if cs.Slow == "fail" {
 		// the failure handler is slowed down at its two log statements (before it
@@ -270,6 +321,34 @@ func runC03Case(c *fw.Ctx, id string, cs c03Case) {
 			ctx = dead
 		}
 		switch x.Mode {
+		case "unbatched-closing":
+			opn++
+			opid := fmt.Sprintf("%s%s-%d", sim.OpIDPrefix, id, opn)
+			g, _ := hrpc.NewGet(ctx, []byte("t"), []byte("a0"), hrpc.SkipBatch(), hrpc.Families(map[string][]string{"echo": {opid}}))
+			g.SetRegion(mkInfoNamed(regs[0]))
+			var once sync.Once
+			call := &closingGet{Get: g, hook: func() { once.Do(func() { within(2*time.Second, rc.Close); c.Count("closed_while_serialising", 1) }) }}
+			t := &c03Tracked{call: call, opid: opid, cancelled: x.Cancelled, post: post, submitted: time.Now()}
+			tracked = append(tracked, t)
+			drains.Add(1)
+			go func() {
+				defer drains.Done()
+				for {
+					select {
+					case res := <-call.ResultChan():
+						if atomic.AddInt32(&t.n, 1) == 1 {
+							atomic.StoreInt64(&t.firstAt, int64(time.Since(t.submitted)))
+							if res.Error != nil {
+								t.firstErr.Store(res.Error)
+							}
+						}
+					case <-stop:
+						return
+					}
+				}
+			}()
+			submitters.Add(1)
+			go func() { defer submitters.Done(); rc.QueueRPC(call) }()
 		case "unbatched", "batchable":
 			t := track(ctx, x.Mode == "unbatched", x.Cancelled, post)
 			submitters.Add(1)
@@ -331,6 +410,14 @@ func runC03Case(c *fw.Ctx, id string, cs c03Case) {
 		allDone = waitAll(func(t *c03Tracked) bool { return !t.post }, 4*time.Second)
 		failed = rc.Dial(context.Background()) != nil
 	}
+	if !failed && cs.Server != "" && cs.BlockThen == "" && int(atomic.LoadInt32(&reqN)) >= cs.ServerAt {
+		// the last call may be completed by the reader a moment before the
+		// failure handler runs (it is even slowed down in some schedules)
+		for i := 0; i < 200 && !failed; i++ {
+			time.Sleep(10 * time.Millisecond)
+			failed = rc.Dial(context.Background()) != nil
+		}
+	}
 	fired := fc != nil && fc.Fired()
 	if fired {
 		c.Count("fault_fired_"+cs.Fault.Kind, 1)
@@ -340,6 +427,17 @@ func runC03Case(c *fw.Ctx, id string, cs c03Case) {
 	}
 	if failed {
 		c.Count("connections_failed", 1)
+	} else if cs.Server != "" && cs.BlockThen == "" && int(atomic.LoadInt32(&reqN)) >= cs.ServerAt && cs.Server != "unknown-call-id" &&
+		(cs.Server != "fatal-action-exc" || atomic.LoadInt32(&fatalDone) == 1) {
+		// the server misbehaved at a request that did arrive: the connection must
+		// have been failed (and, below, refuse what is handed to it afterwards)
+		evs := ""
+		for _, e := range cl.Log.Snapshot() {
+			if e.Kind == "exec-fault" || e.Kind == "reply" || e.Kind == "frame" || e.Kind == "fault" {
+				evs += fmt.Sprintf(" [%s %s call=%d %s]", e.Kind, e.Method, e.CallID, e.Info)
+			}
+		}
+		c.Violate(id, "conn:not-failed:"+cs.Server, fmt.Sprintf("the server answered request %d with %s but the connection is still in use: %s; server log:%s", cs.ServerAt, cs.Server, cs.String(), evs), cs.String())
 	}
 	// requests handed to a failed connection are refused at once
 	postOK := true
@@ -479,7 +577,7 @@ func init() {
 		Floors: func(tier string) map[string]int64 {
 			return map[string]int64{"cases": 1500, "fault_positions_fired": 500, "fault_fired_Read": 30, "fault_fired_Write": 30,
 				"fault_fired_SetReadDeadline": 30, "fault_fired_SetWriteDeadline": 3, "connections_failed": 700, "calls_accounted": 15000,
-				"goroutine_census_checks": 300, "server_fault_cases": 40, "external_close_cases": 20, "writes_blocked": 50}
+				"goroutine_census_checks": 300, "server_fault_cases": 40, "external_close_cases": 20, "writes_blocked": 50, "immediate_detection_cases": 30, "closed_while_serialising": 5}
 		},
 		Run: runC03,
 	})
@@ -550,7 +648,7 @@ func runC03(c *fw.Ctx) {
 					run(cs, true)
 				}
 			}
-			for _, sf := range []string{"garbage", "fatal-exc", "fatal-exc-kill", "silence", "close-mid-frame", "unknown-call-id"} {
+			for _, sf := range []string{"garbage", "garbage-header", "fatal-exc", "fatal-exc-kill", "silence", "close-mid-frame", "unknown-call-id", "fatal-action-exc"} {
 				for at := 1; at <= len(base.Calls); at += 1 + r.Intn(2) {
 					cs := base
 					cs.Slow = slow
@@ -560,5 +658,11 @@ func runC03(c *fw.Ctx) {
 			}
 		}
 		run(base, false)
+		// Close() while an unbatched call is being serialised, at every position of the workload
+		for at := 0; at <= len(base.Calls); at++ {
+			cs := base
+			cs.Calls = append(append(append([]c03Call{}, base.Calls[:at]...), c03Call{Mode: "unbatched-closing"}), base.Calls[at:]...)
+			run(cs, true)
+		}
 	}
 }
